@@ -481,7 +481,7 @@ pub mod u3v {
                 debug_assert!(!self.pending.is_empty());
                 tr::yield_point();
                 let t = self.ch.world.lock().unwrap().transfers.pop_front();
-                if t.is_none() {
+                if matches!(t, None | Some(Transfer::Timeout)) {
                     // the device sends nothing: the poll waits for its timeout (shortened)
                     std::thread::sleep(std::cmp::min(timeout, Duration::from_millis(1)));
                 }
